@@ -84,6 +84,8 @@ def gates_of_value(body, start_local, max_level=6):
     carriers = {start_local: 0}
     bools = {}  # local -> (kind, arm, positive?, level)  e.g. is_some
     discrs = {}  # local -> (kind, level)
+    tup = {}  # (tuple local, field index) -> level : a carrier packed into a tuple (match on several values)
+    discr_place = {}
     changed = True
     rounds = 0
     while changed and rounds < 50:
@@ -125,6 +127,20 @@ def gates_of_value(body, start_local, max_level=6):
                             changed = True
                         elif len(pr) >= 2 and pr[0][0] == "downcast" and pr[0][1] in ("Continue", "Ok", "Some", "Ready"):
                             carriers[dst] = carriers[p[0]] + 1
+                            changed = True
+                elif rv["k"] == "agg" and rv["ak"] == "tuple":
+                    for i, o in enumerate(rv["ops"]):
+                        p = op_place(o)
+                        if p is not None and not p[1] and p[0] in carriers and (dst, i) not in tup:
+                            tup[(dst, i)] = carriers[p[0]]
+                            changed = True
+                elif rv["k"] == "discr" and rv["p"][1] and rv["p"][1][0][0] == "field" and (rv["p"][0], rv["p"][1][0][1]) in tup:
+                    if dst not in discrs:
+                        rest = [e for e in rv["p"][1][1:] if e[0] != "deref"]
+                        lvl = tup[(rv["p"][0], rv["p"][1][0][1])]
+                        if not rest:
+                            discrs[dst] = lvl
+                            discr_place[dst] = "tuple"
                             changed = True
                 elif rv["k"] == "discr":
                     p = rv["p"]
@@ -174,7 +190,12 @@ def gates_of_value(body, start_local, max_level=6):
             for d in body.defs().get(l, []):
                 if d[0] == "assign" and d[3]["rv"]["k"] == "discr":
                     pp = d[3]["rv"]["p"]
-                    kind = _place_kind(body, pp)
+                    if discr_place.get(l) == "tuple":
+                        targs = _generic_args("T<" + body.local_ty(pp[0]).strip()[1:-1] + ">")
+                        idx = pp[1][0][1]
+                        kind = ty_kind(targs[idx]) if idx < len(targs) else "other"
+                    else:
+                        kind = _place_kind(body, pp)
             gates.append(Gate(body, b, kind, False, t, discrs[l]))
         elif l in bools:
             k, arm, pos, lvl = bools[l]
@@ -404,3 +425,41 @@ def _ret_const(body, blk, depth=0):
     if len(succ) == 1:
         return _ret_const(body, succ[0], depth + 1)
     return None
+
+
+def simulate_cfg(body, decide, stop=None):
+    """Explore the CFG from the entry; at a switch `decide(block, term)` may force one target (configuration
+    known) — otherwise all successors are explored. `stop(block)` -> True prunes. Returns visited blocks."""
+    seen = set()
+    work = [0]
+    while work:
+        b = work.pop()
+        if b in seen:
+            continue
+        seen.add(b)
+        if stop is not None and stop(b):
+            continue
+        t = body.term(b)
+        if t and t["k"] == "switch":
+            forced = decide(b, t)
+            if forced is not None:
+                work.append(forced)
+                continue
+        work.extend(body.succ(b))
+    return seen
+
+
+def discr_source_field(body, local):
+    """if `local = discr(P)` return (base_local, [field indices/names along P])"""
+    for d in body.defs().get(local, []):
+        if d[0] == "assign" and d[3]["rv"]["k"] == "discr":
+            p = d[3]["rv"]["p"]
+            return p[0], [(e[1], e[2]) for e in p[1] if e[0] == "field"]
+    return None
+
+
+def switch_target(term, val):
+    for v, t in term["arms"]:
+        if v == val:
+            return t
+    return term["otherwise"]
